@@ -86,6 +86,23 @@ func (x *Exec) fold(s string) {
 // canonical transcript, the callback trace and the transport-level event
 // kinds; the Close callers' events; the schedule trace and the outcome.
 func (x *Exec) foldResult(r *Result) {
+	if d := os.Getenv("VERIF_HASH_DUMP"); d != "" {
+		// diagnosis of a determinism mismatch: what went into the hash
+		if fh, err := os.OpenFile(d, os.O_APPEND|os.O_CREATE|os.O_WRONLY, 0o644); err == nil {
+			fmt.Fprintf(fh, "RUN trace=%x outcome=%d decisions=%d stuck=%v sched=%v\n", r.Trace, r.Outcome, r.Decisions, r.Stuck, r.Schedule)
+			for i, cs := range r.Conns {
+				for _, e := range cs.Events {
+					fmt.Fprintf(fh, " c%d %d %s %s\n", i, e.Seq, e.K, trunc(e.S, 60))
+				}
+			}
+			for i, evs := range r.CloserEvents {
+				for _, e := range evs {
+					fmt.Fprintf(fh, " k%d %d %s %s\n", i, e.Seq, e.K, trunc(e.S, 60))
+				}
+			}
+			fh.Close()
+		}
+	}
 	for _, cs := range r.Conns {
 		t := ParseOut(cs)
 		writeFault := false
